@@ -72,7 +72,7 @@ def showState (s : LState) : String :=
     acc ++ (match r with
       | 0 => "n"
       | f + 1 => match s.fns[f]? with
-        | some (c, true) => toString c
+        | some (c, true) => toString ((c + glob0 s.glob) % 4294967296)
         | _ => "x") ++ ",") ""
   s!"pages={s.mem.pages} glob=" ++ s.glob.foldl (fun acc g => acc ++ toString g.2 ++ ",") "" ++
   " tbl=" ++ tblS ++ " mem=" ++ cells.foldl (fun acc c => acc ++ toString c.1 ++ ":" ++ toString c.2 ++ ",") ""
